@@ -15,8 +15,8 @@
 (* then one further valid block F (a child of the head of the run that     *)
 (* never crashed).                                                         *)
 (*                                                                         *)
-(* Block tree (constant): G - A1(t1) - A2(t2) - A3,  G - B1(t1) - B2 -     *)
-(* B3(t3) - B4,  t1 is shared by A1 and B1.  Invalid blocks: X (child of   *)
+(* Block tree (constant): G - A1(t1) - A2(t2) - A3(t4) - A4,  G - B1(t1) - *)
+(* B2(t4) - B3(t3) - B4,  t1 is shared by A1 and B1, t4 by A3 and B2.  Invalid blocks: X (child of   *)
 (* A1) and S2 (child of B1): wrong state root; R3 (child of B2): wrong     *)
 (* receipt root; U4 (child of B3): wrong gas used; T2 (child of B1) and V4 *)
 (* (child of B3): header.TxHash does not match the body -- T2 executes     *)
@@ -45,15 +45,17 @@ CONSTANTS MaxOffers,   \* number of InsertChain calls in a behaviour
 
 KnownF == JsonDeserialize("known_c11.json")
 
-Static == {"G", "A1", "A2", "A3", "B1", "B2", "B3", "B4", "X", "S2", "R3", "U4", "T2", "T3", "T4", "V4"}
+Static == {"G", "A1", "A2", "A3", "A4", "B1", "B2", "B3", "B4", "X", "S2", "R3", "U4", "T2", "T3", "T4", "V4"}
 AllBlocks == Static \cup {"F"}
-SPar == [b \in Static |-> CASE b = "A2" -> "A1" [] b = "A3" -> "A2" [] b = "B2" -> "B1" [] b = "B3" -> "B2" [] b = "B4" -> "B3"
+SPar == [b \in Static |-> CASE b = "A2" -> "A1" [] b = "A3" -> "A2" [] b = "A4" -> "A3" [] b = "B2" -> "B1" [] b = "B3" -> "B2" [] b = "B4" -> "B3"
                             [] b = "X" -> "A1" [] b = "S2" -> "B1" [] b = "R3" -> "B2" [] b = "U4" -> "B3"
                             [] b = "T2" -> "B1" [] b = "T3" -> "T2" [] b = "T4" -> "T3" [] b = "V4" -> "B3" [] OTHER -> "G"]
 SNum == [b \in Static |-> CASE b = "G" -> 0 [] b \in {"A1", "B1"} -> 1 [] b \in {"A2", "B2", "X", "S2", "T2"} -> 2
                             [] b \in {"A3", "B3", "R3", "T3"} -> 3 [] OTHER -> 4]
-Txs(b) == CASE b = "A1" -> {"t1"} [] b = "A2" -> {"t2"} [] b = "B1" -> {"t1"} [] b = "B3" -> {"t3"} [] OTHER -> {}
-AllTx == {"t1", "t2", "t3"}
+\* t1 is shared by A1 and B1 (same height); t4 by B2 and A3 (A3 lies above a head B2, and is not the tip when A4 is imported)
+Txs(b) == CASE b = "A1" -> {"t1"} [] b = "A2" -> {"t2"} [] b = "A3" -> {"t4"} [] b = "B1" -> {"t1"} [] b = "B2" -> {"t4"}
+            [] b = "B3" -> {"t3"} [] OTHER -> {}
+AllTx == {"t1", "t2", "t3", "t4"}
 \* what is wrong with a block (its own defect)
 Kind(b) == CASE b \in {"X", "S2"} -> "stateroot" [] b = "R3" -> "receipt" [] b = "U4" -> "gas" [] b \in {"T2", "V4"} -> "txroot" [] OTHER -> "ok"
 ExecBad(b) == Kind(b) \in {"stateroot", "receipt", "gas"}     \* rejected by Process + ValidateState
@@ -62,8 +64,8 @@ Invalid == {"X", "S2", "R3", "U4", "T2", "T3", "T4", "V4"}      \* invalid block
 MaxN == 5
 SegsSolo == { <<"A1">>, <<"A2">>, <<"A3">>, <<"A1", "A2">>, <<"A2", "A3">>, <<"A1", "A2", "A3">>,
               <<"B1">>, <<"B2">>, <<"B3">>, <<"B1", "B2">>, <<"B2", "B3">>, <<"B1", "B2", "B3">>,
-              <<"X">>, <<"A1", "X">> }
-SegsUcon == { <<"A1">>, <<"A1", "A2">>, <<"A1", "A2", "A3">>, <<"A2", "A3">>, <<"A3">>,
+              <<"X">>, <<"A1", "X">>, <<"A4">>, <<"A3", "A4">> }
+SegsUcon == { <<"A1">>, <<"A1", "A2">>, <<"A1", "A2", "A3">>, <<"A2", "A3">>, <<"A3">>, <<"A4">>,
               <<"B1">>, <<"B1", "B2">>, <<"B1", "B2", "B3", "B4">>, <<"B2", "B3", "B4">>, <<"B3", "B4">>,
               <<"B1", "T2", "T3", "T4">>, <<"T2", "T3", "T4">>, <<"B1", "B2", "B3", "V4">>, <<"B3", "V4">>,
               <<"B1", "S2">>, <<"B1", "B2", "R3">>, <<"B1", "B2", "B3", "U4">>, <<"A1", "X">>, <<"X">> }
@@ -92,7 +94,8 @@ Anc(b, f) == IF b = "G" THEN <<>> ELSE Append(Anc(Par(b, f), f), b)
 AncSet(b, f) == { Anc(b, f)[i] : i \in DOMAIN Anc(b, f) } \cup {"G"}
 RootOf(b, f) == IF ExecBad(b) THEN {"bad"} ELSE UNION { Txs(x) : x \in AncSet(b, f) }
 HasState(s, b, f) == RootOf(b, f) \in s.roots
-Tree(f) == [par |-> [b \in AllBlocks |-> Par(b, f)], num |-> [b \in AllBlocks |-> NumOf(b, f)], inv |-> Invalid]
+Tree(f) == [par |-> [b \in AllBlocks |-> Par(b, f)], num |-> [b \in AllBlocks |-> NumOf(b, f)], inv |-> Invalid,
+            txs |-> [b \in AllBlocks |-> Txs(b)]]
 
 \* ---------------------------------------------------------------- the code's write sequences
 RECURSIVE Flat(_)
